@@ -1,9 +1,48 @@
 (* C20 — Interpolation and linear algebra over the scalar fields are exact.
-   Property theorems only; proofs are in proofs/. (under construction) *)
+   Property theorems only; proofs are in proofs/LinAlg_proofs.v, proofs/Poly_proofs.v,
+   proofs/Interp_proofs.v.  The models (model/LinAlg.v, model/Poly.v, model/Interp.v) are
+   hand-written after /repo/pkg/base/{mat,polynomials} and tied by the correspondence
+   check; every theorem is over an arbitrary field record K with [flaws K] and over
+   arbitrary sizes.  (Go matrices always have >= 1 row and >= 1 column.) *)
 From Coq Require Import List.
 Import ListNotations.
 Require Import V.base.Fld V.model.LinAlg V.proofs.LinAlg_proofs.
 
-Theorem C20_wf_matrixb_iff : forall (F : Type) r c (M : @matrix F), wf_matrixb r c M = true <-> wf_matrix r c M.
-Proof. exact @wf_matrixb_iff. Qed.
-Print Assumptions C20_wf_matrixb_iff.
+(* (a) SolveRight: a returned vector solves the system *)
+Theorem C20_solve_right_sound : forall (F : Type) (K : fops F), flaws K ->
+  forall r c (M : @matrix F) b x,
+  wf_matrix r c M -> 0 < r -> 0 < c -> length b = r ->
+  solve_right K M b = Some x -> length x = c /\ mvec K M x = b.
+Proof. exact @solve_right_sound. Qed.
+Print Assumptions C20_solve_right_sound.
+
+(* (b) SolveRight: a solution is returned whenever one exists *)
+Theorem C20_solve_right_complete : forall (F : Type) (K : fops F), flaws K ->
+  forall r c (M : @matrix F) b y,
+  wf_matrix r c M -> 0 < r -> 0 < c -> length b = r -> length y = c ->
+  mvec K M y = b -> solve_right K M b <> None.
+Proof. exact @solve_right_complete. Qed.
+Print Assumptions C20_solve_right_complete.
+
+(* failure is reported exactly when no solution exists (every shape: over-, under-determined, rank-deficient) *)
+Theorem C20_solve_right_none_iff : forall (F : Type) (K : fops F), flaws K ->
+  forall r c (M : @matrix F) b,
+  wf_matrix r c M -> 0 < r -> 0 < c -> length b = r ->
+  (solve_right K M b = None <-> ~ exists y, length y = c /\ mvec K M y = b).
+Proof. exact @solve_right_none_iff. Qed.
+Print Assumptions C20_solve_right_none_iff.
+
+(* (c) SolveLeft *)
+Theorem C20_solve_left_sound : forall (F : Type) (K : fops F), flaws K ->
+  forall r c (M : @matrix F) rv x,
+  wf_matrix r c M -> 0 < r -> 0 < c -> length rv = c ->
+  solve_left K M rv = Some x -> length x = r /\ vecm K x M = rv.
+Proof. exact @solve_left_sound. Qed.
+Print Assumptions C20_solve_left_sound.
+
+Theorem C20_solve_left_none_iff : forall (F : Type) (K : fops F), flaws K ->
+  forall r c (M : @matrix F) rv,
+  wf_matrix r c M -> 0 < r -> 0 < c -> length rv = c ->
+  (solve_left K M rv = None <-> ~ exists y, length y = r /\ vecm K y M = rv).
+Proof. exact @solve_left_none_iff. Qed.
+Print Assumptions C20_solve_left_none_iff.
